@@ -14,8 +14,11 @@ LEVEL = ('decides: the DRAT literal sign table of DimacsProof::learned_clause ag
          'clause was handed to the sink, and a line break inside a clause keeps it (G6/G7). a status '
          'line is printed only inside an arm of the solve result and the UNSAT line only after the '
          'proof was concluded; the sink hands every hard clause to the solver on every path (G8); '
-         'add_clause rejects every inconsistent state at once (G9 = C10-T11). Does not decide RUP '
-         'validity or verdict correctness')
+         'add_clause rejects every inconsistent state at once (G9 = C10-T11). Also runs the KERNEL '
+         'BUNDLE (rule ids …K<n>): the kernel rules every verdict depends on — predicate algebra, '
+         'nogood watchers, minimisers, conflict-analysis tables, nogood deletion, decision read-back, '
+         'no-learning resolver, constraint builders, reified reasons — wherever they are not already '
+         'registered here under another id. Does not decide RUP validity or verdict correctness')
 TECHNIQUE = "static analysis: symbolic table recovery, who-may-mutate and must-pass rules over rustc MIR"
 
 SELECTING = {"filter", "filter_map", "skip", "take", "step_by", "skip_while", "take_while", "dedup",
@@ -448,3 +451,5 @@ def run(ctx, led):
     run_rule(led, "G10", "blanks only through the whitespace class in the byte parser; proof files are created truncating", g10, ctx)
     from . import C07 as _C07
     run_rule(led, "G11", "a learned clause is deleted only if it is not the reason of a trail entry (shared with C07-J1)", _C07.j1, ctx)
+    from . import kernel as _kernel
+    _kernel.run_bundle(led, ctx, "G")
